@@ -49,6 +49,8 @@ def run(prog, rep):
     from .c16 import xml_parser_options
     xml_parser_options(prog, rep, "PARSE-2", ("recover",))
 
+    switch_one_object_rule(prog, rep, "SYM-1")
+
     # ----------------------------------------------------------------- ORDER-2
     rep.rule("ORDER-2", "cache_load: the node that opens the cache file for writing is dominated by the statements "
                         "`data = urlopen(url).read()` and `data = data.decode(...)`; those two lie in a try whose handler leaves the "
@@ -320,3 +322,42 @@ def _normal_path(g, a, b, via):
                 continue
             stack.append(m)
     return False
+
+
+def switch_one_object_rule(prog, rep, rule="SYM-1"):
+    """a class level switch is raised and lowered on the same object"""
+    rep.rule(rule, "for every attribute that a loader class (odml.terminology, odml.templates) defines at class level and assigns in a method: "
+                   "all the assignments go to the instance (self.<a>) or all go to the class (<Class>.<a>, cls.<a>, type(self).<a>). A switch raised "
+                   "on the class and lowered on the instance leaves an instance attribute that shadows the class attribute for ever: the next "
+                   "refresh() raises the class switch again, but _load reads the shadowing False and re-parses the stale cache file")
+    n = 0
+    for mname in ("terminology", "templates"):
+        mod = prog.module_of(mname)
+        for cls in mod.classes.values():
+            level = set(k for k in cls.attrs)
+            stores = {}
+            for m in cls.methods.values():
+                me = m.params[0] if m.params and m.has_self else None
+                for st in ast.walk(m.node):
+                    tgts = st.targets if isinstance(st, ast.Assign) else [st.target] if isinstance(st, (ast.AugAssign, ast.AnnAssign)) else []
+                    for t in tgts:
+                        if not (isinstance(t, ast.Attribute) and t.attr in level):
+                            continue
+                        r = unparse(t.value)
+                        if me is not None and r == me and m.kind != "classmethod":
+                            where_to = "instance"
+                        elif r in (cls.name, "cls", "type(%s)" % me, "%s.__class__" % me) or (m.kind == "classmethod" and r == me):
+                            where_to = "class"
+                        else:
+                            continue
+                        stores.setdefault(t.attr, []).append((where_to, m, st))
+            for attr, lst in sorted(stores.items()):
+                n += 1
+                kinds = sorted(set(w for w, _, _ in lst))
+                odd = [x for x in lst if x[0] == "class"]
+                rep.check(len(kinds) == 1, rule, "%s.%s is assigned on one object" % (cls.name, attr), kinds[0],
+                          "%s.%s is assigned on the class in %s and on the instance in %s: the instance attribute shadows the class attribute "
+                          "from then on" % (cls.name, attr, sorted(set(m.name for w, m, _ in lst if w == "class")), sorted(set(m.name for w, m, _ in lst if w == "instance"))),
+                          where(odd[0][1], odd[0][2]) if odd else None,
+                          witness="load, refresh, change the resource, refresh again: the second refresh re-reads the old cache file")
+    rep.note("%s: %d class level attributes assigned in methods of the loader classes" % (rule, n))
